@@ -5,14 +5,14 @@ their references lives in spec/Engine.tla); ENTRIES: the ones used as entry poin
 """
 from __future__ import annotations
 
-OWN = ["plain", "caller", "main0", "bad_type", "calls_bad", "ct_good", "ct_bad", "ct_many", "ct_expr", "closure", "first", "use_generic",
-       "mono", "use_mono", "Pt", "use_struct", "ov_int", "ov_float", "over", "use_over", "long_names", "loops", "n"]
-ENTRIES = ["plain", "caller", "main0", "bad_type", "calls_bad", "ct_good", "ct_bad", "ct_many", "ct_expr", "closure", "use_generic",
-           "use_mono", "use_struct", "use_over", "long_names", "loops"]
+OWN = ["plain", "caller", "main0", "bad_type", "calls_bad", "ct_good", "ct_bad", "ct_many", "ct_intr", "ct_exit", "ct_expr", "closure", "first", "use_generic",
+       "mono", "use_mono", "Pt", "use_struct", "ov_int", "ov_float", "over", "use_over", "effects", "long_names", "loops", "n"]
+ENTRIES = ["plain", "caller", "main0", "bad_type", "calls_bad", "ct_good", "ct_bad", "ct_many", "ct_intr", "ct_exit", "ct_expr", "closure", "use_generic",
+           "use_mono", "use_struct", "use_over", "effects", "long_names", "loops"]
 
 PRELUDE = """\
 from guppylang import guppy, comptime
-from guppylang.std.builtins import array, owned, nat
+from guppylang.std.builtins import array, owned, nat, result
 """
 
 SRC = '''
@@ -67,6 +67,22 @@ def ct_many(x: int) -> int:
     for i in range(35):
         y = y + plain(i)
     return y
+
+
+@guppy.comptime
+def ct_intr(x: int) -> int:
+    # the user hits Ctrl-C while this is being traced, after side-effecting ops were emitted
+    result("t", x)
+    y = x + plain(1)
+    result("u", y)
+    raise KeyboardInterrupt
+
+
+@guppy.comptime
+def ct_exit(x: int) -> int:
+    result("t", x)
+    y = x + plain(2)
+    raise SystemExit(3)
 
 
 @guppy
@@ -143,6 +159,14 @@ def over(*args): ...
 @guppy
 def use_over(a: int, b: float) -> float:
     return over(a) + over(b)
+
+
+@guppy
+def effects(k: int) -> int:
+    result("a", k)
+    if k > 3:
+        result("b", k + 1)
+    return k
 
 
 @guppy
